@@ -78,6 +78,8 @@ fn main() {
             std::process::exit(2);
         }
     };
+    // panics of the code under test are caught and reported per case; keep stderr quiet
+    std::panic::set_hook(Box::new(|_| {}));
     let ctx = Ctx { suite, thorough, only, cases: AtomicUsize::new(0), failures: AtomicUsize::new(0) };
     // a panic inside the code under test is a failure of the case that was running, not of the driver
     let r = std::panic::catch_unwind(std::panic::AssertUnwindSafe(|| match suite {
